@@ -13,6 +13,8 @@ use super::code::*;
 //@include prelude/base_spec.rs
 //@include prelude/lemmas_stats.rs
 //@include prelude/comparison_spec.rs
+//@include prelude/lemmas_c10.rs
+//@include prelude/lemmas_c10_unpaired.rs
 } // mod spec
 
 pub mod code {
